@@ -149,6 +149,58 @@ CHECKS = {
         "trusts vf/ihex.py",
         "DESIGN.md section 5 / C16",
     ),
+    "C11": (
+        "exploration",
+        "Hypothesis-generated hierarchies and regex pairs against a 25-line reference selection model; cache decoded with the C10 oracle, output tree compared level by level with an independent CBOR reader",
+        "For generated envelope trees (names recurring across levels, adjacent dependencies, optional signature) and omit/dependency "
+        "patterns built from the names present, the reference model predicts the cache pairs, the stripped tree and whether the run must "
+        "be refused (duplicate URI, non-envelope dependency); outputs are compared with it and refusals must leave no file. Single "
+        "extraction with/without file and replacement is checked the same way.",
+        "trusts vf/cborlite.py, the C10 cache oracle and Python's re.fullmatch for the documented selection",
+        "DESIGN.md section 5 / C11",
+    ),
+    "C15": (
+        "exploration",
+        "exhaustive format product and run sequences for keys; convert on keys constructed at the coordinate boundaries (leading 0x00 / 0x04, trailing 0x00) x Hypothesis layout options, C file tokenised and compared with verifier-computed bytes",
+        "keys: all 40 type/encoding/format combinations, and every ordered pair of key types as two runs into one prefix, are executed; "
+        "accepted combinations must give a loadable, matching, strictly parsed pair, refused ones the tool's error type and no files. "
+        "convert: private scalars are scanned until 60 boundary keys per NIST curve exist, plus random and EdDSA keys, under generated "
+        "layout options; the array body is tokenised and must equal fixed-width big-endian X||Y / the raw key, and the length variable "
+        "must be sizeof(array). Thorough compiles samples with clang and a _Static_assert.",
+        "trusts cryptography's key loading and public numbers",
+        "DESIGN.md section 5 / C15",
+    ),
+    "C17": (
+        "fault_enumeration",
+        "complete structure-aware mutation of every node of seed envelopes (type confusion, length inflation, delete/duplicate/swap), all truncations, nesting amplification, Hypothesis byte edits/splices and coverage-guided fuzzing (atheris/libFuzzer) with the oracle inside the target",
+        "Per seed envelope every node and map key (bstr-wrapped layers opened) is replaced by ~57 representatives incl. inflated length "
+        "fields, deleted, duplicated and swapped (~70k mutants per quick run, enumerated completely), every prefix is tried, nesting of "
+        "seven container kinds and of integrated dependency envelopes is amplified to depth 3000 / 40, Hypothesis edits bytes and "
+        "splices seeds, and two atheris campaigns (seed corpus / empty corpus) run the same target. Escapes are bucketed by (exception "
+        "type, innermost suit_generator frame); CPU time and RSS growth are bounded per case and confirmed in a fresh process.",
+        "resource clause only up to coarse thresholds; RLIMIT_AS 3 GiB; libFuzzer campaigns approximately reproducible (saved input is the unit)",
+        "DESIGN.md section 5 / C17",
+    ),
+    "C19": (
+        "exploration",
+        "complete enumeration of the 45 template configurations with sampled child envelopes regenerated at the same paths in one process; abstract interpreter over the created manifest",
+        "Every image subset x name set x version mode of both shipped templates is rendered through ncs/build.py's own functions and "
+        "created; an abstract interpreter walks every command sequence tracking the current component index and checks indices, "
+        "dependency components, that every fetched '#name' has an integrated envelope whose wrapped manifest hashes to the digest set "
+        "beside the URI, installed-manifest class ids, the envelope's own component id and the sequence number / version.",
+        "trusts vf/cborlite.py, hashlib, uuid5; children sampled (10 per configuration in quick)",
+        "DESIGN.md section 5 / C19",
+    ),
+    "C20": (
+        "exploration",
+        "bounded-exhaustive pair enumeration (1.3e6 ordered pairs) + mutation pairs for longer versions against a grammar-parsed reference precedence; VERSION tuple grid through ncs/build.py",
+        "All ordered pairs of the 1152 version strings with <= 2 release fields and mutation/random pairs of 3-5 field strings are "
+        "converted by creating an envelope and reading member 6; zero-padded list order must equal the reference precedence; 16 "
+        "unsupported spellings must be rejected. VERSION tuples over the stated grid and random tuples must give strictly increasing "
+        "sequence numbers and a default version the encoder accepts, for 14 EXTRAVERSION spellings.",
+        "reference precedence: absent pre-release number = 0; mixed-arity pairs with a label and equal common prefix excluded as ambiguous",
+        "DESIGN.md section 5 / C20",
+    ),
 }
 
 NOT_YET = "check under construction in this session; not claimed until its quick command is registered here"
